@@ -182,7 +182,7 @@ async fn controller(sh: Shared, scn: Arc<Scenario>, mode: ClockMode, end_out: Ar
 
 pub fn run(scn: Arc<Scenario>, mode: ClockMode, verbose: bool) -> Outcome {
     let sh = State::new(scn.clone(), verbose);
-    let net = Net::new(sh.clone(), scn.net.clone());
+    let net = Net::new(sh.clone(), scn.net.clone(), scn.q.max_recv_udp);
     let end_out = Arc::new(Mutex::new((End::Panic("controller never finished".into()), 0u64, 0u64)));
     let wall0 = real_ns();
     let res = {
@@ -387,6 +387,20 @@ fn judge(sh: &Shared, scn: &Scenario, end: &End, mode: ClockMode) -> Verdict {
                 _ => "both",
             };
             viol(format!("handshake_timeout:{who}"), what)
+        }
+        End::Stall
+            if g.net.max_len[0] > scn.s2n.max_mtu as usize
+                && g.s.packets_dropped.get("DecryptionFailed").copied().unwrap_or(0) > 0 =>
+        {
+            // known finding, role independent: see README "rx_truncation_unadvertised_limit"
+            Verdict::Violation {
+                signature: "rx_truncation_unadvertised_limit".into(),
+                what: format!(
+                    "s2n-quic (max_mtu {}) advertised the default max_udp_payload_size (65527) but its receive buffer holds {} bytes: quiche's {}-byte datagrams are truncated and dropped as DecryptionFailed ({} times), the transfer cannot finish; pending: {}",
+                    scn.s2n.max_mtu, scn.s2n.max_mtu, g.net.max_len[0],
+                    g.s.packets_dropped.get("DecryptionFailed").copied().unwrap_or(0), pending()
+                ),
+            }
         }
         End::Stall => viol(
             "stall".into(),
